@@ -25,8 +25,9 @@ namespace og = ompl::geometric;
 class Sphere : public ob::Constraint
 {
 public:
-    Sphere() : ob::Constraint(3, 1) {}
-    void function(const Eigen::Ref<const Eigen::VectorXd> &x, Eigen::Ref<Eigen::VectorXd> out) const override { out[0] = x.norm() - 1; }
+    Sphere(double radius = 1.0) : ob::Constraint(3, 1), r_(radius) {}
+    double r_;
+    void function(const Eigen::Ref<const Eigen::VectorXd> &x, Eigen::Ref<Eigen::VectorXd> out) const override { out[0] = x.norm() - r_; }
     void jacobian(const Eigen::Ref<const Eigen::VectorXd> &x, Eigen::Ref<Eigen::MatrixXd> out) const override { out = x.transpose().normalized(); }
 };
 class Torus : public ob::Constraint
@@ -52,6 +53,7 @@ public:
 static ob::ConstraintPtr make_constraint(const std::string &m)
 {
     if (m == "sphere") return std::make_shared<Sphere>();
+    if (m == "smallsphere") return std::make_shared<Sphere>(0.1);     // curvature radius small against the sampling distances
     if (m == "torus") return std::make_shared<Torus>();
     if (m == "plane") return std::make_shared<Plane>();
     return std::make_shared<Circle>();
@@ -66,6 +68,7 @@ static void seed_on(const std::string &m, Eigen::VectorXd &a, Eigen::VectorXd &b
 {
     a.resize(3); b.resize(3);
     if (m == "sphere") { a << 0, 0, -1; b << 0, 0, 1; }
+    else if (m == "smallsphere") { a << 0, 0, -0.1; b << 0, 0, 0.1; }
     else if (m == "torus") { a << 2.7, 0, 0; b << -2.7, 0, 0; }
     else if (m == "plane") { a << -1, -1, 0; b << 1, 1, 0; }
     else { double s = 1.0 / std::sqrt(1.25); a << s, 0, 0.5 * s; b << -s, 0, -0.5 * s; }
